@@ -44,7 +44,15 @@ def build_pool(seed, tier, n_corpus=None, n_synth=None, n_ops=None, want_values=
                                                  if e.get('opkind') == 'table-d-sequence')),
             'table_d_sweep_complete': n_tabled < 0,
             'rejected': len(rejected), 'rejected_refs': [r['ref'] for r in rejected][:10],
-            'pool_mismatch': mismatches[:10]}
+            'pool_mismatch': mismatches[:10],
+            # a message that decodes fully but not metadata-only is not "just rejected": that is C17's clause
+            # "decoding metadata only returns the same values for sections 0-3 as a full decode"
+            '_info_only_failures': [r for r in rejected if r['full_ok'] and not r['info_ok']],
+            # a message written by the independent writer (ground truth known) is valid by construction: if
+            # the library cannot decode it alone, a stream made of it is not split into "exactly the messages
+            # it contains" - C11, not a silent rejection
+            '_valid_rejected': [r for r in rejected if r['src'] == 'synth' and r['has_truth']],
+            '_all_rejected': rejected}
     return admitted, info
 
 
@@ -108,6 +116,38 @@ def check_main(prop, tier, engine, engine_name, families, level, rule, assumptio
     else:
         pool, pinfo = [], {'note': 'this engine writes its own messages (bufrgen) per run; no shared pool'}
     stats = Stats()
+    info_fail = pinfo.pop('_info_only_failures', [])
+    pinfo['fully_decodable_but_not_metadata_only'] = len(info_fail)
+    valid_rej = pinfo.pop('_valid_rejected', [])
+    pinfo['writer_made_messages_rejected'] = len(valid_rej)
+    adm_plans = []
+    if prop == 'C17':
+        adm_plans = [{'engine': 'streamsim', 'family': 'c17-admit', 'seed': 0, 'items': [{'ref': r['ref'], 'hex': r['hex']}]}
+                     for r in info_fail[:8]]
+    elif prop == 'C11':
+        adm_plans = [{'engine': 'streamsim', 'family': 'c11-admit', 'seed': 0, 'items': [{'ref': r['ref'], 'hex': r['hex']}]}
+                     for r in valid_rej[:8]]
+    elif prop == 'C08':
+        # a pool message that the (interpreting) admission decode rejects: the compiling path must reject it
+        # too - one path succeeding where the other fails is C08's business, not a silent rejection
+        adm_plans = [{'engine': 'histsim', 'family': 'c08', 'sub': 'admit', 'seed': 0, 'limit': 50,
+                      'clients': [{'compiled': 2, 'root': 'bundled'}],
+                      'msgs': [{'ref': r['ref'], 'hex': r['hex'], 'cls': '?', 'json': '[]', 'qs': [], 'key': None,
+                                'marker': False, 'nsub': 0}],
+                      'ops': [{'op': 'decode', 'c': 0, 'm': 0, 'wire': True, 'ive': False}]}
+                     for r in pinfo.get('_all_rejected', [])[:24]]
+    pinfo.pop('_all_rejected', None)
+    if adm_plans:
+        eng = engine_module(adm_plans[0]['engine'])
+        plans = adm_plans
+        for plan, (st, tr) in zip(plans, core.pmap(plans[0]['engine'], plans, limit=120)):
+            stats.evaluations += 1
+            stats.by_family[plan['family']] = stats.by_family.get(plan['family'], 0) + 1
+            if st != 'ok':
+                rep.add_harness('%s %s: %s' % (plan['family'], plan['items'][0]['ref'], tr))
+                continue
+            for sig in eng.oracle(plan, tr):
+                rep.add(sig, plan, {'VERIF_SEED': seed, 'run_seed': 0, 'family': plan['family']})
     if hasattr(main_engine, 'prepare_pool'):
         pool = main_engine.prepare_pool(pool)
         print('engine pool: %d messages (%.1fs)' % (len(pool), time.time() - t0))
